@@ -123,6 +123,8 @@ def check_text(case, ev):
                 plain_only = not (ip or words or asn)
                 if len(ta_) != len(tb_) or (plain_only and any(x != y for i_, (x, y) in enumerate(zip(ta_, tb_)) if i_ != k)):
                     return Finding("tokens/non-secret-tokens-of-secret-line-changed", "features %s: %r -> %r" % (feats, a, b), case)
+                if ln["strict"].get("enc") and pwd and k < len(tb_) and not (tb_[k].startswith(ln["strict"]["enc"][0]) and tb_[k].endswith(ln["strict"]["enc"][1])):
+                    return Finding("tokens/quotes-or-brackets-around-a-secret-changed", "features %s: %r -> %r (token %d was enclosed in %r)" % (feats, a, b, k, ln["strict"]["enc"]), case)
                 if ln["strict"].get("same_text_earlier") and plain_only and pwd and k < len(tb_) and tb_[k] == ta_[k]:
                     return Finding("tokens/secret-kept-while-equal-text-earlier-in-line-changed-or-not", "features %s: %r -> %r" % (feats, a, b), case)
             continue
@@ -297,7 +299,13 @@ def _case(draw):
         if k == 1:
             form = draw(st.sampled_from(_POS1 if draw(st.integers(0, 3)) else _SCRUB))
             v = draw(S.secret_for(form))[1]
-            s, spans = S.render(form, draw(st.integers(0, 20)), draw(st.integers(0, 5)), [v], ("", ""), "", "")
+            if heavy and lines and draw(st.integers(0, 2)) == 0:
+                # the same secret again later in the run (then usually in another quoting)
+                prev = [l_["value"] for l_ in lines if l_.get("value") and not any(ch.isspace() for ch in l_["value"])]
+                if prev and form.mode == "pos" and "text" in form.classes and not form.text_kw and form.reject is None:
+                    v = draw(st.sampled_from(prev))
+            enc_ = draw(st.sampled_from(S.ENCLOSINGS[:7])) if form.enclose and form.mode == "pos" and draw(st.booleans()) else ("", "")
+            s, spans = S.render(form, draw(st.integers(0, 20)), draw(st.integers(0, 5)), [v], enc_, "", "")
             strict = None
             if form.mode == "pos" and not any(ch.isspace() for ch in v):
                 st_ = s.strip()
@@ -308,6 +316,8 @@ def _case(draw):
                 toks_ = st_.split()
                 if strict["slot_token"] >= len(toks_) or v not in toks_[strict["slot_token"]]:
                     strict = None
+                elif enc_ != ("", ""):
+                    strict["enc"] = list(enc_)  # quotes / brackets around the secret are not part of it: kept
             inner = []
             same_text = False
             for ph in ("Someone", "Somegroup", "Someview", "Foo", "PEERS", "example.com"):
@@ -326,7 +336,7 @@ def _case(draw):
                     inner.append(tok)
             if inner and not same_text:
                 strict = None
-            lines.append({"secret": s.strip(), "scrub": form.mode != "pos", "strict": strict, "inner": inner, "prefix": draw(st.lists(st.sampled_from(VOCAB), max_size=2)), "lead": draw(_lead), "trail": draw(st.sampled_from(["", "", " ", "\t", "\xa0"])), "eol": eol})
+            lines.append({"value": v if form.mode == "pos" else None, "secret": s.strip(), "scrub": form.mode != "pos", "strict": strict, "inner": inner, "prefix": draw(st.lists(st.sampled_from(VOCAB), max_size=2)), "lead": draw(_lead), "trail": draw(st.sampled_from(["", "", " ", "\t", "\xa0"])), "eol": eol})
             continue
         toks = []
         for _t in range(draw(st.integers(1, 7))):
